@@ -682,6 +682,88 @@ fn sc_fixed_tx(max_ops: usize) -> impl Fn(&mut Ctx) + Sync {
     }
 }
 
+/// C01 for the byte-preserving transaction type: a FixedTransaction reached by a load path and a
+/// history of operations is a value built through the public API like any other, so it must
+/// survive encode/decode - the decoded value has the same parts and re-encodes to the same bytes.
+pub fn sc_roundtrip_after_history(max_ops: usize) -> impl Fn(&mut Ctx) + Sync {
+    move |ctx: &mut Ctx| {
+        let which = ctx.choose_free(5);
+        let load = ctx.choose_free(4);
+        let n_ops = ctx.choose_free(max_ops + 1);
+        let ops: Vec<Op> = (0..n_ops).map(|_| OPS[ctx.choose_free(OPS.len())]).collect();
+        let e = refcbor::emit(&base_tx(which));
+        ctx.observe(&(which, load, ops.iter().map(|o| format!("{:?}", o)).collect::<Vec<_>>()));
+        let mut m = match model_of(&e) {
+            Some(m) => m,
+            None => return,
+        };
+        let ops_c = ops.clone();
+        let what = move || format!("FixedTransaction: base {} load path {} then {:?}", which, load, ops_c);
+        ctx.set_sample(|| what());
+        let n = refcbor::parse(&e).unwrap();
+        let top = n.as_array().unwrap();
+        let loaded = guard(|| match load {
+            0 => FixedTransaction::from_bytes(e.clone()).map_err(|x| format!("{:?}", x)),
+            1 => FixedTransaction::from_hex(&hx(&e)).map_err(|x| format!("{:?}", x)),
+            3 => FixedTransaction::new_from_body_bytes(&m.body).map_err(|x| format!("{:?}", x)),
+            _ => {
+                let ws = top[1].span(&e);
+                match &m.aux {
+                    Some(a) => FixedTransaction::new_with_auxiliary(&m.body, ws, a, m.is_valid).map_err(|x| format!("{:?}", x)),
+                    None => FixedTransaction::new(&m.body, ws, m.is_valid).map_err(|x| format!("{:?}", x)),
+                }
+            }
+        });
+        let mut ft = match loaded {
+            Ok(Ok(ft)) => ft,
+            _ => return,
+        };
+        for op in &ops {
+            match guard(|| apply_op(&mut ft, &mut m, *op)) {
+                Ok(Ok(())) => {}
+                // what an operation itself does wrong is C04's subject
+                _ => return,
+            }
+        }
+        ctx.compared();
+        let b = match guard(|| ft.to_bytes()) {
+            Ok(b) => b,
+            Err(p) => return ctx.violation(panic_sig("C01", "FixedTransaction::to_bytes", &p), what()),
+        };
+        if refcbor::parse(&b).is_err() {
+            return ctx.violation("C01/FixedTransaction/to_bytes-not-well-formed".to_string(), format!("{} ; {}", what(), hx(&b)));
+        }
+        let back = match guard(|| FixedTransaction::from_bytes(b.clone())) {
+            Ok(Ok(x)) => x,
+            Ok(Err(er)) => return ctx.violation("C01/FixedTransaction/from_bytes-rejects-own-output".to_string(), format!("{:?} ; {} ; {}", er, what(), hx(&b))),
+            Err(p) => return ctx.violation(panic_sig("C01", "FixedTransaction::from_bytes", &p), what()),
+        };
+        if back.to_bytes() != b {
+            ctx.violation("C01/FixedTransaction/re-encoding-differs".to_string(), format!("{} ; {}", what(), hx(&b)));
+        }
+        if ft.to_hex() != hx(&b) || FixedTransaction::from_hex(&ft.to_hex()).map(|x| x.to_bytes()).ok() != Some(b.clone()) {
+            ctx.violation("C01/FixedTransaction/hex-entry-points-differ-from-bytes".to_string(), what());
+        }
+        let part = if back.witness_set() != ft.witness_set() {
+            Some("witness-set")
+        } else if back.body() != ft.body() || back.raw_body() != ft.raw_body() {
+            Some("body")
+        } else if back.is_valid() != ft.is_valid() {
+            Some("is_valid")
+        } else if back.auxiliary_data() != ft.auxiliary_data() || back.raw_auxiliary_data() != ft.raw_auxiliary_data() {
+            Some("auxiliary-data")
+        } else if back.transaction_hash().to_bytes() != ft.transaction_hash().to_bytes() {
+            Some("transaction-hash")
+        } else {
+            None
+        };
+        match part {
+            Some(p) => ctx.violation(format!("C01/FixedTransaction/decoded-value-differs/{}", p), format!("{} ; {}", what(), hx(&b))),
+            None => ctx.hit("fixed-transaction-round-trips-after-history"),
+        }
+    }
+}
+
 // ---------------------------------------------------------------------------------------------
 // datums
 
